@@ -1,6 +1,8 @@
 mod dual_connector;
 mod matrix_connector;
 mod raw_connector;
+#[cfg(vibrato_verif)]
+pub mod verif;
 
 use bincode::{Decode, Encode};
 
